@@ -92,6 +92,13 @@ def _r051(ctx: Ctx) -> None:
             ctx.ob('R05.1', site, f"{d.name}.allowed_codes names an exported, registered code class: '{nm}'", ok,
                    f"'{nm}' is {'not a code class' if nm not in code_classes else 'not registered in CODES' if nm not in code_keys else 'not exported by panqec.codes'}",
                    key=f"{d.name}|allowed[{nm}]")
+    for d in sorted(decs, key=lambda c: c.name):
+        r = d.find_method('__init__')
+        params = [a.arg for a in r[1].args.args][1:4] if r else []
+        ctx.ob('R05.1', site_of(r[0].module, r[1]) if r else site_of(d.module, d.node),
+               f'{d.name}.__init__ takes (code, error_model, error_rate) first', params == ['code', 'error_model', 'error_rate'],
+               f'first parameters are {params}: the input parser passes them by keyword and the GUI by position',
+               key=f'{d.name}|ctor-signature')
     for cname in ('BaseDecoder', 'StabilizerCode', 'BaseErrorModel'):
         ci, fn = m.method(cname, 'id')
         rets = [n for n in ast.walk(fn) if isinstance(n, ast.Return)]
